@@ -74,6 +74,8 @@ func runC04(c *Ctx) {
 	c.checkComplementShape("complement-shape")
 	c.checkStaleState("stale-iteration-state", "cmd", "align")
 	c.L.Floor("stale-iteration-state", 3, "listed state machines of cmd and align plus the scope line")
+	c.checkSumGuards("sum-guard-overflow", "SubAlign", "InverseCoordinates", "Mask")
+	c.L.Floor("sum-guard-overflow", 1, "SubAlign and InverseCoordinates (floor = half)")
 }
 
 // splitGuard: in Split, CharAt(pos)/sequence[pos] are safe because
